@@ -2,7 +2,8 @@ import os
 HERE = os.path.dirname(os.path.abspath(__file__))
 def prep(ov):
     # the shared channel contract stub becomes a crate-level cfg(kani) module of tracing-appender
-    ov.attach_lib_module("tracing-appender", "__verif_c15_chan", open(os.path.join(HERE, "channel_stub.rs")).read())
+    vtag = open(os.path.join(os.path.dirname(HERE), "common", "vtag.rs")).read()   # vstatic!: see contracts/common/vtag.rs
+    ov.attach_lib_module("tracing-appender", "__verif_c15_chan", vtag + "\n" + open(os.path.join(HERE, "channel_stub.rs")).read())
 PLAN = dict(
     id="C15", level="other", explanation='Sequential contracts with the crossbeam channel replaced by a contract stub (bounded FIFO; try_send fails iff full/disconnected; send blocks unless disconnected; recv/try_recv pop in order - ASSUMED, listed): Worker::handle_recv / handle_try_recv write a Line whole exactly once and map every other message to its state; Worker::work drains a scripted receive sequence (<= 3 entries) in order, writes each line once, flushes exactly once on a normal exit, returns Err on a write error having consumed only that line; NonBlocking::write / write_all: lossy mode always reports the whole buffer and written + dropped = offered (saturating counter), blocking mode is Ok iff queued and never counts; ErrorCounter::incr_saturating for every counter value. WorkerGuard::drop is not under contract (Kani compiler crash).',
     functions_under_contract=['tracing-appender/src/worker.rs: Worker::{handle_recv,handle_try_recv,work}', 'tracing-appender/src/non_blocking.rs: NonBlocking::{write,write_all}, ErrorCounter::{incr_saturating,dropped_lines}'],
